@@ -662,6 +662,10 @@ pub fn handle_xreadgroup(storage: &Arc<StorageEngine>, db: usize, parts: &[RespF
     }
     
     for (key, stream, after_id) in reads {
+        // A read of the consumer's own history (explicit ID) always names the stream, even with
+        // no entries; only a read of new entries (">") leaves a stream without news out
+        let history_read = after_id != StreamId::max();
+        
         // Read entries for the group
         match stream.read_group(&group_name, &consumer_name, after_id, count, noack) {
             Ok(entries) if !entries.is_empty() => {
@@ -690,6 +694,12 @@ pub fn handle_xreadgroup(storage: &Arc<StorageEngine>, db: usize, parts: &[RespF
                 
                 stream_result.push(RespFrame::Array(Some(entry_frames)));
                 results.push(RespFrame::Array(Some(stream_result)));
+            }
+            Ok(_) if history_read => {
+                results.push(RespFrame::Array(Some(vec![
+                    RespFrame::from_bytes(key.to_vec()),
+                    RespFrame::Array(Some(Vec::new())),
+                ])));
             }
             Ok(_) => {} // Empty result, skip
             Err(e) if e.contains("NOGROUP") => {
